@@ -167,11 +167,11 @@ class DiscoveryIntroductionRequestPayload(IntroductionRequestPayload):
         """
         Unpack a DiscoveryIntroductionRequestPayload.
         """
-        return DiscoveryIntroductionRequestPayload(introduce_to[1:],
+        return DiscoveryIntroductionRequestPayload(introduce_to[1],
                                                    destination_address,
                                                    source_lan_address,
                                                    source_wan_address,
-                                                   [True, False][advice],
+                                                   bool(advice),
                                                    decode_connection_type(connection_type_0, connection_type_1),
                                                    identifier,
                                                    extra_bytes)
